@@ -45,11 +45,51 @@ def copy_in_construction(rnd, label):
     return "\n".join(L) + "\n"
 
 
+def overwrite_history(rnd, label):
+    """a copy into an object that already holds another grid with its own domain transform, conformal map, limits, values or an
+    active construction: whatever the destination held must be gone (the source may have none of these)"""
+    L = ["SCEN " + label]
+    # the destination first (slot 2): its own grid and attributes
+    line2, info2 = gl.make_line(rnd, d=rnd.choice([1, 2, 2, 3]), limits=gl.rnd_limits(rnd, 2, 0, 3, 0.3) if False else None)
+    L.append("@2 " + line2)
+    d2 = info2["d"]
+    if rnd.random() < 0.8:
+        a = [rnd.choice([-2, -1, 0, 1]) for _ in range(d2)]
+        L.append("@2 transform %d %s %d %s" % (d2, " ".join(map(str, a)), d2, " ".join(str(x + rnd.choice([1, 2, 4])) for x in a)))
+    if rnd.random() < 0.6:
+        L.append("@2 load 1")
+    if rnd.random() < 0.3:
+        L.append("@2 begin")
+    # the source (slot 1): mostly without a transform
+    line1, info1 = gl.make_line(rnd, d=rnd.choice([1, 2, 2, 3]))
+    L.append(line1)
+    d1 = info1["d"]
+    if rnd.random() < 0.25:
+        a = [rnd.choice([-2, -1, 0, 1]) for _ in range(d1)]
+        L.append("transform %d %s %d %s" % (d1, " ".join(map(str, a)), d1, " ".join(str(x + rnd.choice([1, 2, 4])) for x in a)))
+    if rnd.random() < 0.7:
+        L.append("load 1")
+    k = rnd.random()
+    if k < 0.45:
+        b = rnd.randint(0, max(info1["outs"] - 1, 0))
+        e = rnd.choice([-1] + list(range(b + 1, info1["outs"] + 1))) if info1["outs"] > 0 else -1
+        L.append("@2 copy %d %d" % (b, e))
+    elif k < 0.55:
+        L.append("@2 copyctor")
+    else:
+        L.append("@2 assign")
+    L.append("@2 rtswap %d" % rnd.randint(0, 1))
+    if rnd.random() < 0.5:
+        L.append("@2 load 2")
+    return "\n".join(L) + "\n"
+
+
 def run(ctx):
     rnd = random.Random(ctx.seed + 1111)
     n = 200 if ctx.quick else 1200
     scens = [gl.history(rnd, "c%d" % i, steps=rnd.randint(4, 9), with_copy=True, with_construct=True, with_transform=True, with_coef=(i % 3 == 0)) for i in range(n)]
     scens += [copy_in_construction(rnd, "k%d" % i) for i in range(n // 3)]
+    scens += [overwrite_history(rnd, "w%d" % i) for i in range(n // 4)]
     scens += [gl.nonnested_history(rnd, "g%d" % i) for i in range(n // 4)]
     gl.run_grid(ctx, [("copy", scens), ("mixed", gl.mixed_family(rnd, max(40, n // 5)))], gl.OBS_NODAL | gl.OBS_RT, "C11")
     ctx.assume("equality of source and copy is judged on the projected state (points, needed, values, limits, transforms, construction flag) and on nodal reproduction; both objects are projected after every step")
